@@ -102,6 +102,17 @@ struct Inner {
     held: Vec<Vec<Held>>,
     trap_stale: bool,
     aborted: bool,
+    /// element-level checks: per thread, the list locks it has passed (the
+    /// schedule point before `lock()`) during its current operation, with the
+    /// epoch at that moment
+    passed: Vec<Vec<(usize, u64)>>,
+    /// per thread: epoch at the start of its current operation
+    op_epoch: Vec<u64>,
+    /// parallel to `invalid`: the list lock the invalidating thread had
+    /// passed last (0 = unknown: a buffer freed with its last handle)
+    inval_lock: Vec<usize>,
+    /// ranges handed out by `realloc_array`: (base, bytes, epoch)
+    fresh: Vec<(usize, usize, u64)>,
 }
 
 /// One controlled execution of a set of threads.
@@ -166,6 +177,10 @@ impl Session {
                 held: (0..threads).map(|_| vec![]).collect(),
                 trap_stale,
                 aborted: false,
+                passed: (0..threads).map(|_| vec![]).collect(),
+                op_epoch: vec![0; threads],
+                inval_lock: vec![],
+                fresh: vec![],
             }),
             cv: Condvar::new(),
         })
@@ -175,6 +190,7 @@ impl Session {
     /// freely until their first schedule point.
     pub fn attach(self: &Arc<Self>, tid: usize) {
         CUR.with(|c| *c.borrow_mut() = Some((self.clone(), tid)));
+        SKIP_READS.with(|c| c.set(false));
     }
 
     /// The calling thread has finished its program.
@@ -275,6 +291,22 @@ impl Session {
         lock_id: usize,
         probe: Option<LockProbe>,
     ) {
+        if self.park_core(tid, site, kind, lock_id, probe) {
+            CUR.with(|c| *c.borrow_mut() = None);
+            std::panic::panic_any(Aborted);
+        }
+    }
+
+    /// Park at a schedule point; returns `true` if the session was aborted
+    /// while the thread was parked (the caller decides how to leave).
+    fn park_core(
+        &self,
+        tid: usize,
+        site: &'static str,
+        kind: PointKind,
+        lock_id: usize,
+        probe: Option<LockProbe>,
+    ) -> bool {
         let mut g = self.inner.lock().unwrap();
         // a pointer held across a schedule point while its mutex is free has
         // left its critical section
@@ -303,11 +335,14 @@ impl Session {
             g = self.cv.wait(g).unwrap();
         }
         if g.aborted {
-            drop(g);
-            CUR.with(|c| *c.borrow_mut() = None);
-            std::panic::panic_any(Aborted);
+            return true;
         }
         g.state[tid] = TState::Running;
+        if kind == PointKind::Lock {
+            let e = g.epoch;
+            g.passed[tid].push((lock_id, e));
+        }
+        false
     }
 
     /// End the session: every parked thread unwinds out of its operation
@@ -409,6 +444,9 @@ pub fn realloc(old: usize, old_bytes: usize, new: usize, new_bytes: usize) {
         g.epoch += 1;
         let e = g.epoch;
         g.invalid.push((old, old_bytes, e));
+        let lk = g.passed[tid].last().map(|p| p.0).unwrap_or(0);
+        g.inval_lock.push(lk);
+        g.fresh.push((new, new_bytes, e));
         g.events.push((
             tid,
             Event::Realloc {
@@ -427,8 +465,187 @@ pub fn free(base: usize, bytes: usize) {
         g.epoch += 1;
         let e = g.epoch;
         g.invalid.push((base, bytes, e));
+        g.inval_lock.push(0);
         g.events.push((tid, Event::Free { base, bytes }));
     }
 }
 
 pub use crate::value::list::c16_api::*;
+
+// ---------------------------------------------------------------------------
+// Element-level schedule points.
+//
+// With `u64` elements a walk over the element buffer (`to_vec`, `==`,
+// `contains`, `index`, `concat`, the clone in `get`) is a handful of
+// instructions without a schedule point, so a walk that is *not* covered by
+// the list's lock cannot be interleaved with anything. [`ProbeElem`] is an
+// element type whose `Clone` and `PartialEq` — which the list code calls for
+// every element it looks at — are schedule points: between reading the first
+// and the second half of the element any other thread may run (if the lock it
+// needs is free). The two halves of every value ever stored are equal, so a
+// result with different halves is an element that was never in the list.
+//
+// An element access is *stale* if the address lies in a range that was
+// reallocated / freed by a thread that had passed list lock `L` after the
+// accessing thread last passed `L` in its current operation (a buffer freed
+// with its last handle: after the operation began), unless the range was
+// handed out again by a later `realloc_array` that precedes one of the
+// accessing thread's lock passages. A stale access is reported and *not
+// performed* (the element reads as [`ProbeElem::POISON`]); nothing unwinds,
+// because `Clone` / `PartialEq` are also reached through `extern "C"`
+// functions.
+
+thread_local! {
+    /// the thread saw a stale element or its session was aborted while it
+    /// stood inside an element access: it reads no element any more
+    static SKIP_READS: std::cell::Cell<bool> = const { std::cell::Cell::new(false) };
+}
+
+/// Start of an operation of the calling (attached) thread: the lock passages
+/// recorded for the previous operation are forgotten.
+pub fn op_begin() {
+    if let Some((s, tid)) = cur() {
+        let mut g = s.inner.lock().unwrap();
+        g.passed[tid].clear();
+        g.op_epoch[tid] = g.epoch;
+    }
+}
+
+fn elem_is_stale(g: &Inner, tid: usize, addr: usize) -> bool {
+    let latest_pass = g.passed[tid].iter().map(|p| p.1).max();
+    g.invalid.iter().zip(&g.inval_lock).any(|(&(b, n, e), &lk)| {
+        if !(addr >= b && addr < b + n) {
+            return false;
+        }
+        let since = if lk == 0 {
+            Some(g.op_epoch[tid])
+        } else {
+            g.passed[tid]
+                .iter()
+                .filter(|p| p.0 == lk)
+                .map(|p| p.1)
+                .max()
+        };
+        let Some(since) = since else { return false };
+        if e <= since {
+            return false;
+        }
+        // handed out again before the accessing thread's latest lock
+        // passage: the address may have been derived afresh
+        let again = g.fresh.iter().any(|&(fb, fnb, fe)| {
+            fe > e
+                && addr >= fb
+                && addr < fb + fnb
+                && latest_pass.map(|p| fe <= p).unwrap_or(false)
+        });
+        !again
+    })
+}
+
+/// An element at `addr` is about to be read. `false`: the access is stale
+/// (reported as a stale pointer use) and must not be performed.
+pub fn elem_access(addr: usize) -> bool {
+    if SKIP_READS.with(|c| c.get()) {
+        return false;
+    }
+    let Some((s, tid)) = cur() else { return true };
+    let mut g = s.inner.lock().unwrap();
+    if elem_is_stale(&g, tid, addr) {
+        g.events.push((tid, Event::PtrUse { addr, stale: true }));
+        drop(g);
+        SKIP_READS.with(|c| c.set(true));
+        return false;
+    }
+    true
+}
+
+/// Schedule point in the middle of the access to the element at `addr`;
+/// afterwards the staleness check is repeated. `false`: do not read on.
+pub fn sched_elem(site: &'static str, addr: usize) -> bool {
+    let Some((s, tid)) = cur() else {
+        return !SKIP_READS.with(|c| c.get());
+    };
+    if s.park_core(tid, site, PointKind::Op, 0, None) {
+        // the session ended while we stood here: leave it without unwinding
+        // (we may be below an `extern "C"` frame) and read nothing any more
+        CUR.with(|c| *c.borrow_mut() = None);
+        SKIP_READS.with(|c| c.set(true));
+        return false;
+    }
+    elem_access(addr)
+}
+
+/// Element type whose `Clone` and `PartialEq` are schedule points (see above).
+#[repr(C)]
+#[derive(Debug)]
+pub struct ProbeElem {
+    a: u64,
+    b: u64,
+}
+
+impl ProbeElem {
+    /// what a stale (not performed) read yields
+    pub const POISON: u64 = u64::MAX - 1;
+
+    pub fn new(v: u64) -> Self {
+        ProbeElem { a: v, b: v }
+    }
+
+    /// the two halves, read without any schedule point (for values the
+    /// caller owns)
+    pub fn halves(&self) -> (u64, u64) {
+        (self.a, self.b)
+    }
+
+    fn read(&self, site: &'static str) -> (u64, u64) {
+        let addr = self as *const Self as usize;
+        if !elem_access(addr) {
+            return (Self::POISON, Self::POISON);
+        }
+        // SAFETY: a field of a live `&self` (volatile: another thread may be
+        // writing it if the list's locking is broken; that is what we are
+        // here to see)
+        let a = unsafe { std::ptr::read_volatile(&self.a) };
+        if !sched_elem(site, addr) {
+            return (Self::POISON, Self::POISON);
+        }
+        // SAFETY: as above
+        let b = unsafe { std::ptr::read_volatile(&self.b) };
+        (a, b)
+    }
+}
+
+impl Clone for ProbeElem {
+    fn clone(&self) -> Self {
+        let (a, b) = self.read("elem:clone");
+        ProbeElem { a, b }
+    }
+}
+
+impl PartialEq for ProbeElem {
+    fn eq(&self, other: &Self) -> bool {
+        // `self` is the element of the (first) list; `other` an element of
+        // the second list (`==`) or the value looked for (`contains`)
+        let o = other as *const Self as usize;
+        if !elem_access(o) {
+            return false;
+        }
+        let (a, b) = self.read("elem:eq");
+        if a == Self::POISON && b == Self::POISON {
+            return false;
+        }
+        if !elem_access(o) {
+            return false;
+        }
+        // SAFETY: fields of a live `&other`
+        let (oa, ob) = unsafe {
+            (
+                std::ptr::read_volatile(&other.a),
+                std::ptr::read_volatile(&other.b),
+            )
+        };
+        a == oa && b == ob
+    }
+}
+
+pub use crate::value::list::c16_elem_api::*;
